@@ -452,6 +452,15 @@ def crafted(rng):
     idx = struct.pack("<BBHHB9x", 0, 0, 15, 0, 0)
     out.append(("crafted-empty-prototype", build(pc_xml(5, ""), cv([ign] * 50 + [idx] * 5)), "empty prototype, 55 skipped packets"))
     out.append(("crafted-ignored-packets-only", build(pc_xml(5, '<cartesianX type="Float"/>'), cv([ign] * 200)), "200 four-byte ignored packets then end of file"))
+    # index and ignored packets whose length field sits on the header size (16 / 4) and around it, then real data
+    good = data_packet([rng.bytes(16)])
+    for pl in (4, 8, 12, 16, 20, 32, 65536):
+        body = bytes(max(0, pl - 16))
+        pkt = struct.pack("<BBHHB9x", 0, 0, pl - 1, 0, 0) + body
+        out.append(("crafted-index-length-%d" % pl, build(pc_xml(2, '<cartesianX type="Float"/>'), cv([pkt, good])), "index packet of declared length %d before a data packet" % pl))
+    for pl in (4, 8, 12, 65536):
+        pkt = struct.pack("<BBH", 2, 0, pl - 1) + bytes(pl - 4)
+        out.append(("crafted-ignored-length-%d" % pl, build(pc_xml(2, '<cartesianX type="Float"/>'), cv([pkt, good])), "ignored packet of declared length %d before a data packet" % pl))
     # huge record count over little data
     out.append(("crafted-huge-recordcount", build(pc_xml(U64, '<cartesianX type="Float"/>'), cv([data_packet([rng.bytes(40)])])), "recordCount 2^64-1, ten points of data"))
     # full 64-bit range integers
